@@ -503,7 +503,7 @@ func (l *IPFSLog) Iterator(options *IteratorOptions, output chan<- iface.IPFSLog
 
 	// Deal with the amount argument working backwards from gt/gte
 	if (options.GT.Defined() || options.GTE.Defined()) && amount > -1 {
-		entries = entries[len(entries)-amount:]
+		entries = entries[len(entries)-minInt(amount, len(entries)):]
 	}
 
 	for i := range entries {
